@@ -15,7 +15,6 @@ import (
 	"pgregory.net/rapid"
 
 	"verif/internal/harness"
-	"verif/internal/keys"
 	"verif/internal/pki"
 	"verif/internal/preref"
 	"verif/internal/rfc6962"
@@ -69,7 +68,7 @@ func genUtil(t *rapid.T) UtilCase {
 		c.Ext = rapid.SliceOfN(rapid.Byte(), 1, 8).Draw(t, "ext")
 	}
 	c.LogID = genBytes32(t, "logid")
-	k := keys.Get(c.Key)
+	k := getKey(c.Key)
 	nm := []int{0, 0, 0, 1, 1, 1, 1, 2, 2}[pick(t, "nmut", 9)]
 	for i := 0; i < nm; i++ {
 		label := fmt.Sprintf("mut%d", i)
@@ -106,7 +105,7 @@ func checkUtil(t *testing.T, c UtilCase) (v harness.Verdict) {
 	ct.AllowVerificationWithNonCompliantKeys = c.OptIn
 	defer func() { ct.AllowVerificationWithNonCompliantKeys = false }()
 
-	k := keys.Get(c.Key)
+	k := getKey(c.Key)
 	b := world.Build(c.Spec)
 	route := "x509"
 	if c.Spec.Precert {
@@ -257,7 +256,7 @@ func checkUtil(t *testing.T, c UtilCase) (v harness.Verdict) {
 
 	// The same SCT through a ctutil.LogInfo built from the key's SubjectPublicKeyInfo (no network is
 	// touched: the client inside is never used).
-	if o.p.key != nil && o.p.keyName == o.p.key.Name && c.Shape == "" {
+	if o.p.key != nil && o.p.keyName == o.p.key.Name && o.p.key.SPKI != nil && c.Shape == "" {
 		var li *ctutil.LogInfo
 		var lerr error
 		func() {
